@@ -27,7 +27,7 @@ from vlib.evidence import Result
 PROPERTY = "C07"
 LEVEL = "model_checking"
 BOUNDS = {
-    "quick": "all 342 pipelines of depth<=2 over the 18 functions (one parameter instance each) x ALL element sequences of length<=3 over {nil false 0 1 2 :a} (259; pipelines that need collections as elements, e.g. starting with cat: length<=3 over 5 collections) x {lazy fn form, into, sequence, transduce, eduction}; representations: vector/list/Python list/instrumented lazy seq at length<=1, vector+instrumented lazy seq at length 2, instrumented lazy seq at length 3; plus every pipeline whose reference terminates on (range), (repeat nil), (iterate not true), (repeat [1 2 3]), (map (fn [i] [i nil]) (range)), (repeat [[1] [2 3]]) under a 64-pull budget",
+    "quick": "all 324 depth-3 pipelines X->cat->Y (inputs of length<=2, and length 3 over {nil false 0}) and all 342 pipelines of depth<=2 over the 18 functions (one parameter instance each) x ALL element sequences of length<=3 over {nil false 0 1 2 :a} (259; pipelines that need collections as elements, e.g. starting with cat: length<=3 over 5 collections) x {lazy fn form, into, sequence, transduce, eduction}; representations: vector/list/Python list/instrumented lazy seq at length<=1, vector+instrumented lazy seq at length 2, instrumented lazy seq at length 3; plus every pipeline whose reference terminates on (range), (repeat nil), (iterate not true), (repeat [1 2 3]), (map (fn [i] [i nil]) (range)), (repeat [[1] [2 3]]) under a 64-pull budget",
     "thorough": "all 2862 pipelines of depth<=2 over ALL 53 parameter instances x all sequences of length<=3 (259) and, for the 342 one-instance pipelines, length 4 (1296); all 5832 depth-3 pipelines (one instance per function) x all sequences of length<=2 over the full alphabet and length 3 over {nil false 0}; six forms (eduction consumed by into and by seq); representations as in quick; same infinite inputs",
 }
 RULE = (
@@ -378,6 +378,15 @@ def enum_pipelines(tier):
         for k in (1, 2):
             for combo in itertools.product(one, repeat=k):
                 out.append((combo, plan))
+        # depth 3 through the flattening stage: X -> cat -> Y (a producer of collections, flattened, then any stage
+        # incl. the early terminators) -- the smallest shape in which a stage's completion flush meets a reduction
+        # that has already ended downstream
+        deepq = [(0, None, ["lazy"], FIVE), (1, None, ["lazy"], FIVE), (2, None, ["lazy"], FIVE), (3, 3, ["lazy"], FIVE)]
+        cats = [i for i in one if i[0] == "cat"]
+        for a in one:
+            for c in cats:
+                for b in one:
+                    out.append(((a, c, b), deepq))
     else:
         base = [(0, None, KINDS, FORMS), (1, None, KINDS, FORMS), (2, None, ["vector", "lazy"], FORMS), (3, None, ["lazy"], FORMS)]
         for k in (1, 2):
